@@ -361,6 +361,7 @@ pub fn run(tier: &str) -> i32 {
             liveness: true,
             upgrade_transparency: true,
             syncing_toggles: false,
+            sync_gate: false,
         };
         let e = explore(&m, &Limits::new(3, if quick { 300 } else { 6000 }));
         rep.absorb(
